@@ -559,6 +559,7 @@ func (f *Facts) Summary(p *Prog) map[string]any {
 func eventTypeCases(fn *ssa.Function) map[string]bool {
 	out := map[string]bool{}
 	for _, bf := range branchFacts(fn) {
+		curEnv = bf.A.Env
 		if bf.A.Kind != "const" || bf.A.C.Value == nil || bf.A.C.Value.Kind() != constant.String {
 			continue
 		}
